@@ -13,7 +13,7 @@
              "object size (or run-time VLA size) <= 2^40, stack addresses <= 2^62: the 64-bit address arithmetic of the emitted add/and does not wrap",
              "calcvla() (recursive; replaced by a no-op) has stored the VLA size temporary in type->u.array.size before the allocation; for a VLA the ghost g_vlasize is the run-time value of that temporary",
              "QBE IL reference: `allocN s` returns an address that is a multiple of N (N = 4, 8, 16) of a fresh region of s bytes; add/and on class l are 64-bit two's complement",
-             "funcinst appends the instruction to f->end (open block) and returns its result temporary (QBE.funcinst.dead)"]
+             "funcinst appends the instruction to f->end and returns its result temporary (QBE.funcinst.dead); f->start is an open block (no jump builder ever runs while f->end == f->start: mkfunc moves f->end to the body block right after the parameters, and funcalloc switches back only around its own funcinst calls) -- otherwise funcinst would link a dead block after f->start and cut the block chain"]
 }
 */
 #include "qbe.c"
